@@ -16,6 +16,7 @@ Input : the output of `gcc -E` on a file of /repo (the code that is compiled), a
 What the extraction drops: nothing.  What it adds: specification clauses, no executable code.
 A missing function, or a loop count different from `@nloops`, raises WeaveError (runner: exit 2).
 """
+import os
 import re
 import sys
 
@@ -239,6 +240,21 @@ def weave(src, specs):
         for od, kind, rptok in loops:
             if od in sp['loops']:
                 block(f'loop{od}', sp['loops'][od], rptok)
+                # location of the loop statement itself (legacy instrumentation reports loop obligations there)
+                j = rptok
+                d = 0
+                while j > lb:
+                    if toks[j][0] == 'p':
+                        ch = src[toks[j][1]]
+                        if ch == ')': d += 1
+                        elif ch == '(':
+                            d -= 1
+                            if d == 0: break
+                    j -= 1
+                kw = j - 1
+                while kw > lb and toks[kw][0] == 'pp': kw -= 1
+                f1, l1 = line_at(src, toks, kw)
+                cmap[('LOOP', os.path.basename(f1), l1)] = (fn, f'loop{od}')
     out = []; last = 0
     for pos, text in sorted(inserts):
         out.append(src[last:pos]); out.append(text); last = pos
